@@ -100,7 +100,10 @@ Definition slice_dim (fx : fixes) (shape stride start stop step : Z)
            (have_start have_stop have_step : bool) : dim_res :=
   match slice_bounds fx shape start stop step have_start have_stop have_step with
   | None => DErr ValueError
-  | Some (start', _, step', new_shape) => DSlice new_shape (stride * step') (start' * stride)
+  | Some (start', _, step', new_shape) =>
+      (* an empty slice with a negative step can have start' = -1: there is no first item and the
+         data pointer / suboffset stays where it is *)
+      DSlice new_shape (stride * step') ((if start' <? 0 then 0 else start') * stride)
   end.
 
 (* (new_shape, first index, index step) of the slice branch *)
